@@ -645,6 +645,115 @@ Proof.
 Qed.
 
 (* ==================================================================================== *)
+(** * sort_by: the same, whatever the comparator, on tables whose keys are distinct *)
+
+Definition kkeys_b (m : kvs) : list bytes := map (fun kv : key * item => k_key (fst kv)) m.
+
+Lemma tbl_is_map_eq items d im dt p sp :
+  tbl_is_map (Tbl items d im dt p sp)
+  = keys_distinct (kkeys_b items)
+    && forallb (fun kv => match snd kv with ITable (Tbl _ _ _ true _ _ as sub) => tbl_is_map sub | _ => true end) items.
+Proof.
+  cbn [tbl_is_map]. unfold kkeys_b. f_equal. induction items as [|[k i] items IH]; [reflexivity|].
+  cbn [forallb snd]. rewrite IH. reflexivity.
+Qed.
+Lemma inline_is_map_eq items pre im dt d sp :
+  inline_is_map (VInline items pre im dt d sp)
+  = keys_distinct (kkeys_b items)
+    && forallb (fun kv => match snd kv with IValue (VInline _ _ _ true _ _ as sub) => inline_is_map sub | _ => true end) items.
+Proof.
+  cbn [inline_is_map]. unfold kkeys_b. f_equal. induction items as [|[k i] items IH]; [reflexivity|].
+  cbn [forallb snd]. rewrite IH. reflexivity.
+Qed.
+
+Lemma kkeys_ins_by_mem le x m k :
+  existsb (bytes_eqb k) (kkeys_b (kv_ins_by le x m)) = existsb (bytes_eqb k) (kkeys_b (x :: m)).
+Proof.
+  induction m as [|y m IH]; [reflexivity|]. cbn [kv_ins_by]. destruct (le x y); [reflexivity|].
+  unfold kkeys_b in *. cbn [map existsb] in *. rewrite IH.
+  destruct (bytes_eqb k (k_key (fst y))), (bytes_eqb k (k_key (fst x))); reflexivity.
+Qed.
+Lemma kkeys_sort_by_mem le m k :
+  existsb (bytes_eqb k) (kkeys_b (kv_sort_by le m)) = existsb (bytes_eqb k) (kkeys_b m).
+Proof.
+  induction m as [|x m IH]; [reflexivity|]. cbn [kv_sort_by]. rewrite kkeys_ins_by_mem.
+  unfold kkeys_b in *. cbn [map existsb]. rewrite IH. reflexivity.
+Qed.
+
+Lemma kv_get_ins_by le x m k :
+  existsb (bytes_eqb (k_key (fst x))) (kkeys_b m) = false ->
+  kv_get (kv_ins_by le x m) k = kv_get (x :: m) k.
+Proof.
+  induction m as [|y m IH]; intro Hn; [reflexivity|].
+  cbn [kv_ins_by]. destruct (le x y); [reflexivity|].
+  unfold kkeys_b in Hn. cbn [map existsb] in Hn. apply orb_false_iff in Hn as [Hxy Hn].
+  destruct x as [kx ix], y as [ky iy]. cbn [fst] in *. simpl kv_get.
+  destruct (bytes_eqb (k_key ky) k) eqn:Ey.
+  - destruct (bytes_eqb (k_key kx) k) eqn:Ex; [|reflexivity].
+    apply bytes_eqb_eq in Ex, Ey. rewrite Ex, Ey, bytes_eqb_refl in Hxy. discriminate.
+  - rewrite (IH Hn). reflexivity.
+Qed.
+Lemma kv_get_sort_by le m k : keys_distinct (kkeys_b m) = true -> kv_get (kv_sort_by le m) k = kv_get m k.
+Proof.
+  induction m as [|[k1 i1] m IH]; intro Hd; [reflexivity|].
+  unfold kkeys_b in Hd. cbn [map keys_distinct fst] in Hd. apply andb_true_iff in Hd as [H1 H2]. apply negb_true_iff in H1.
+  cbn [kv_sort_by]. rewrite kv_get_ins_by by (rewrite kkeys_sort_by_mem; exact H1).
+  simpl kv_get. rewrite (IH H2). reflexivity.
+Qed.
+Lemma kkeys_b_map (g : item -> item) m :
+  kkeys_b (map (fun kv : key * item => match kv with (k0, i) => (k0, g i) end) m) = kkeys_b m.
+Proof. unfold kkeys_b. rewrite map_map. apply map_ext. intros [k i]. reflexivity. Qed.
+
+Lemma sort_by_same_entries cm :
+  (forall v, inline_is_map v = true -> same_entries (IValue v) (IValue (inline_sort_by cm v))) /\
+  (forall t, tbl_is_map t = true -> same_entries (ITable t) (ITable (tbl_sort_by cm t))).
+Proof.
+  pose (Pv := fun v => inline_is_map v = true -> same_entries (IValue v) (IValue (inline_sort_by cm v))).
+  pose (Pt := fun t => tbl_is_map t = true -> same_entries (ITable t) (ITable (tbl_sort_by cm t))).
+  pose (Pi := fun i => match i with IValue v => Pv v | ITable t => Pt t | _ => True end).
+  assert (Hinl : forall items pre im dt d sp,
+             Forall (fun kv => Pi (snd kv)) items -> Pv (VInline items pre im dt d sp)).
+  { intros items pre im dt d sp IH Hm q k0. rewrite inline_is_map_eq in Hm. apply andb_true_iff in Hm as [Hd Hc].
+    unfold entry_of. destruct q as [|[k|n] q]; [reflexivity| |reflexivity].
+    simpl inline_sort_by. simpl lookup.
+    rewrite kv_get_sort_by by (rewrite kkeys_b_map; exact Hd). rewrite kv_get_map.
+    destruct (kv_get items k) as [[k' i]|] eqn:G; [|reflexivity].
+    rewrite Forall_forall in IH. specialize (IH _ (kv_get_In _ _ _ _ G)). simpl in IH.
+    rewrite forallb_forall in Hc. specialize (Hc _ (kv_get_In _ _ _ _ G)). cbn [snd] in Hc.
+    destruct i as [|[s r d0|vals tr c d0 sp0|items0 pre0 im0 dt0 d0 sp0]|[items0 d0 im0 dt0 p0 sp0]|]; try reflexivity.
+    destruct dt0; [|reflexivity]. apply (IH Hc q (Some k')). }
+  assert (Htb : forall items d im dt p sp,
+             Forall (fun kv => Pi (snd kv)) items -> Pt (Tbl items d im dt p sp)).
+  { intros items d im dt p sp IH Hm q k0. rewrite tbl_is_map_eq in Hm. apply andb_true_iff in Hm as [Hd Hc].
+    unfold entry_of. destruct q as [|[k|n] q]; [reflexivity| |reflexivity].
+    simpl tbl_sort_by. simpl lookup.
+    rewrite kv_get_sort_by by (rewrite kkeys_b_map; exact Hd). rewrite kv_get_map.
+    destruct (kv_get items k) as [[k' i]|] eqn:G; [|reflexivity].
+    rewrite Forall_forall in IH. specialize (IH _ (kv_get_In _ _ _ _ G)). simpl in IH.
+    rewrite forallb_forall in Hc. specialize (Hc _ (kv_get_In _ _ _ _ G)). cbn [snd] in Hc.
+    destruct i as [|[s r d0|vals tr c d0 sp0|items0 pre0 im0 dt0 d0 sp0]|[items0 d0 im0 dt0 p0 sp0]|]; try reflexivity.
+    destruct dt0; [|reflexivity]. apply (IH Hc q (Some k')). }
+  split.
+  - apply (value_ind4 Pv Pi Pt); unfold Pi; try (intros; exact I); try (intros; assumption); try exact Hinl; try exact Htb.
+    + intros s r d _ q k0. reflexivity.
+    + intros vals tr c d sp _ _ q k0. reflexivity.
+  - apply (tbl_ind4 Pv Pi Pt); unfold Pi; try (intros; exact I); try (intros; assumption); try exact Hinl; try exact Htb.
+    + intros s r d _ q k0. reflexivity.
+    + intros vals tr c d sp _ _ q k0. reflexivity.
+Qed.
+
+Lemma op_sort_by_keeps cm : keeps (op_sort_by cm) (fun _ => true) ident.
+Proof.
+  intros i i' H q k0 e _ He. unfold ident.
+  destruct i as [|[| |items pre im dt d sp]|t|]; unfold op_sort_by in H; try discriminate.
+  - destruct (inline_is_map (VInline items pre im dt d sp)) eqn:Hm; [|discriminate]. injection H as <-.
+    change (entry_of q k0 (IValue (inline_sort_by cm (VInline items pre im dt d sp))) = Some e).
+    rewrite (proj1 (sort_by_same_entries cm) (VInline items pre im dt d sp) Hm q k0). exact He.
+  - destruct (tbl_is_map t) eqn:Hm; [|discriminate]. injection H as <-.
+    rewrite (proj2 (sort_by_same_entries cm) t Hm q k0). exact He.
+Qed.
+
+(* ==================================================================================== *)
 (** * IndexMut: everything off the assigned path, and the existing tables along it *)
 
 Lemma kv_get_push_none_other m k k2 v : bytes_eqb k k2 = false -> kv_get (kv_push m (key_new k) v) k2 = kv_get m k2.
@@ -728,7 +837,7 @@ Definition op_region (o : op) : path * (path -> bool) * (path -> path) :=
   match o with
   | OInsert p k _ | OInsertTable p k | OInsertAot p k | ORemove p k
   | OMakeValue p k | OIntoTable p k | OIntoAot p k => (p, not_key k, ident)
-  | OArrPush p _ | OAotPush p | OSort p => (p, fun _ => true, ident)
+  | OArrPush p _ | OAotPush p | OSort p | OSortBy p _ => (p, fun _ => true, ident)
   | OArrInsert p i _ => (p, fun _ => true, shift_up i)
   | OArrReplace p i _ => (p, not_idx i, ident)
   | OArrRemove p i | OAotRemove p i => (p, not_idx i, shift_down i)
@@ -757,7 +866,7 @@ Proof.
   assert (K : forall U R, keeps f U R -> op_region o = (P, U, R) ->
                           entry_of (match op_region o with (P, _, R) => R_at P R p end) None (ITable t') = Some e).
   { intros U R Hk Er. rewrite Er in *. exact (at_path_keeps P f U R Hk _ _ H p None e Hu He). }
-  destruct o as [q k v|q k|q k|q k|q v|q i v|q i v|q i|q|q i|q|q|q k|q k|q k|ks x];
+  destruct o as [q k v|q k|q k|q k|q v|q i v|q i v|q i|q|q i|q|q|q k|q k|q k|ks x|q cm];
     simpl in EO; injection EO as <- <-.
   - exact (K _ _ (op_insert_keeps k v) eq_refl).
   - exact (K _ _ (op_insert_item_keeps k _) eq_refl).
@@ -779,6 +888,7 @@ Proof.
     rewrite app_nil_l || idtac.
     apply (iset_keeps _ _ _ _ H p None e); auto.
     destruct (is_prefix (map SKey (k :: ks)) p); [discriminate|reflexivity].
+  - exact (K _ _ (op_sort_by_keeps cm) eq_refl).
 Qed.
 
 (* histories: an entry no operation of the history touches (followed through the relocations) *)
